@@ -6,7 +6,7 @@ d = open(os.path.join(HERE, "DESIGN.md")).read()
 i = d.index("### 11.7 ")
 j = d.index("\n## Appendix A", i)
 rows = [l for l in open(os.path.join(HERE, "seeded/RESULTS.md")) if l.startswith("| C")]
-ben = [l for l in open(os.path.join(HERE, "seeded/benign/RESULTS.md")) if re.match(r"^\| [ABC]\d", l)]
+ben = [l for l in open(os.path.join(HERE, "seeded/benign/RESULTS.md")) if re.match(r"^\| [ABCN]\d", l)]
 det = sum(1 for l in rows if "MISSED" not in l and "INFRA" not in l and "DOES-NOT" not in l)
 body = """### 11.7 Which check catches which seeded change (quick tier unless noted)
 
@@ -36,11 +36,12 @@ input (C01-3), in-place output writes (C07-4), non-hermetic targets re-run under
 (C08-4), SIGTERM-trapping shells + orphan oracle (C18-3), a slow simulated disk during
 interrupts (C18-4), per-build host platform (own sensitivity test: platform dropped from the key).
 
-Behaviour-preserving refactors (9, from three sub-agents told to keep every property intact while
+Behaviour-preserving changes (9 refactors from three sub-agents told to keep every property intact while
 perturbing structure: WaitGroup -> channel, reordered goroutine starts, split functions, merged
 removal sites of the locker, swapped independent statements ...) are stored under
 `seeded/benign/`; `tools/eval_benign.py` runs the relevant quick checks against each and all stay
-quiet (the C10 check still recognises its known findings on the refactored locker):
+quiet (the C10 check still recognises its known findings on the refactored locker). N1 is the former
+seeded change C15-2, which fix a4b2d86 neutralised (its demonstration passes on the current tree):
 
 | refactor | checks run |
 |---|---|
